@@ -114,6 +114,13 @@ func (f *Friendly) GetMove(
 	ctx context.Context,
 	p *tak.Position,
 	mine, theirs time.Duration) tak.Move {
+	if ctx.Err() != nil {
+		// The handleMove invocation that started us is over
+		// (we were still waiting for the move lock): nobody
+		// reads our answer, the record may have been undone
+		// below p, and after GameOver f.g is gone.
+		return tak.Move{}
+	}
 	if f.fpa != nil {
 		if p.MoveNumber() > 0 {
 			prevP := f.g.Positions[len(f.g.Positions)-2]
